@@ -30,11 +30,14 @@ RULE = ("(a) one design per operand width pair (wa, wb) <= 4 (quick) / 6 (thorou
         "bits, exhaustive values; (b) seeded random API-built designs (max width 8; every fifth up to 33 bits "
         "without *; registers with non-zero reset values, memories with initial contents, ROMs) x initial state x "
         "input sequence x merge_io_vectors x update_working_block: a case = (design, config), non-trivial when at "
-        "least half of the Outputs toggled or the design has state; plus 10 directed designs in both tiers: 2-3 "
+        "least half of the Outputs toggled or the design has state; plus 14 directed designs in both tiers: 2-3 "
         "memories and a ROM (pairwise different contents via memory_value_map) read through ONE address wire object "
         "(Input / intermediate wire / Register) that is also address and data of write ports; registers with reset "
         "None / explicit 0 / non-zero side by side; ROMs with pad_with_zeros and partial list / sparse-dict romdata "
-        "read at every address (a third of the random designs also draw such ROMs); each design is additionally "
+        "read at every address (a third of the random designs also draw such ROMs); write ports with every kind of "
+        "enable (Const 0, Const 1, plain, constants reaching the port through logic, dynamic) read back over a "
+        "colliding address history; several memories and a ROM that share one NAME with different initial contents; "
+        "each design is additionally "
         "run with default_value in {1, all-ones of the smallest register}; "
         "every cycle compares Outputs of original / "
         "synthesized / Sem / Coq model and, wire by wire, value(w) = sum_i bit(w_i) 2^i on the real block")
@@ -673,7 +676,97 @@ def py_shape_ok(post, merge):
     return True, None
 
 
-N_DIRECTED = 10      # 0-5 shared address wire; 6-7 reset None / 0 / non-zero; 8-9 partial ROMs with pad_with_zeros
+N_DIRECTED = 14      # 0-5 shared address wire; 6-7 reset None / 0 / non-zero; 8-9 partial ROMs with pad_with_zeros;
+                     # 10-11 write ports with constant enables; 12-13 memories sharing one name
+
+
+DIRECTED_KIND = ['directed-shared-address'] * 3 + ['directed-reset-values', 'directed-partial-roms',
+                                                  'directed-constant-write-enables', 'directed-same-name-memories']
+
+
+def build_directed_enables(ctx, k):
+    """every kind of write-enable the API can produce, one memory each: the constant 0 (a port switched off at
+    build time), the constant 1 given explicitly, the plain `mem[a] <<= d` port, a constant that reaches the
+    port through logic, and a dynamic enable; a separate read address and a history with many address
+    collisions, so a write in one cycle is read in later cycles"""
+    rng = ctx.sub_rng('directed-enables', k)
+    pyrtl.reset_working_block()
+    d = gen_designs.Design(pyrtl.working_block())
+    aw = 2
+    wa = pyrtl.Input(aw, 'wa')
+    ra = pyrtl.Input(aw, 'ra')
+    din = pyrtl.Input(4, 'din')
+    en = pyrtl.Input(1, 'en')
+    d.inputs = [wa, ra, din, en]
+    kinds = ['const0', 'const1', 'plain', 'derived0', 'derived1', 'dynamic']
+    if k % 2:
+        kinds.reverse()
+    for j, kind in enumerate(kinds):
+        m = pyrtl.MemBlock(bitwidth=4, addrwidth=aw, name='em_' + kind, max_read_ports=None,
+                           max_write_ports=None, asynchronous=True)
+        d.mems.append(m)
+        if kind == 'const0':
+            m[wa] <<= pyrtl.MemBlock.EnabledWrite(din, pyrtl.Const(0, bitwidth=1))
+        elif kind == 'const1':
+            m[wa] <<= pyrtl.MemBlock.EnabledWrite(din, pyrtl.Const(1, bitwidth=1))
+        elif kind == 'plain':
+            m[wa] <<= din
+        elif kind == 'derived0':
+            m[wa] <<= pyrtl.MemBlock.EnabledWrite(din, en & pyrtl.Const(0, bitwidth=1))
+        elif kind == 'derived1':
+            m[wa] <<= pyrtl.MemBlock.EnabledWrite(din, en | pyrtl.Const(1, bitwidth=1))
+        else:
+            m[wa] <<= pyrtl.MemBlock.EnabledWrite(din, en)
+        o = pyrtl.Output(4, 'o_' + kind)
+        o <<= m[ra]
+        d.outputs.append(o)
+    d.ops = ['memwr'] * len(kinds) + ['memrd'] * len(kinds)
+    memmap = {m: {x: (3 * x + j + 9) % 16 for x in range(1 << aw)} for j, m in enumerate(d.mems) if (j + k) % 3}
+    n = 10 if ctx.tier == 'quick' else 20
+    inputs = [{'wa': rng.randrange(4), 'ra': rng.randrange(4), 'din': rng.randrange(1, 16), 'en': rng.randrange(2)}
+              for _ in range(n)]
+    return d, {}, memmap, inputs
+
+
+def build_directed_same_name(ctx, k):
+    """a helper that creates `MemBlock(name='table')` internally, instantiated several times: distinct memories
+    (and a ROM) that share one NAME, initialised differently through memory_value_map keyed by the original
+    objects, written and read independently"""
+    rng = ctx.sub_rng('directed-same-name', k)
+    pyrtl.reset_working_block()
+    d = gen_designs.Design(pyrtl.working_block())
+    a = pyrtl.Input(2, 'a')
+    b = pyrtl.Input(2, 'b')
+    din = pyrtl.Input(4, 'din')
+    en = pyrtl.Input(1, 'en')
+    d.inputs = [a, b, din, en]
+
+    def table_unit(j, addr, waddr, wen):
+        m = pyrtl.MemBlock(bitwidth=4, addrwidth=2, name='table', max_read_ports=None, max_write_ports=None,
+                           asynchronous=True)
+        m[waddr] <<= pyrtl.MemBlock.EnabledWrite(din, wen)
+        o = pyrtl.Output(4, 'o_table%d' % j)
+        o <<= m[addr]
+        d.mems.append(m)
+        d.outputs.append(o)
+
+    n_units = 2 + k % 2
+    for j in range(n_units):
+        table_unit(j, a if j % 2 == 0 else b, b if j % 2 == 0 else a, en if j != 1 else ~en)
+    rom = pyrtl.RomBlock(bitwidth=4, addrwidth=2, romdata=[7, 1, 12, 5], name='table' if k % 2 else 'lut',
+                         max_read_ports=None, asynchronous=True)
+    d.roms.append(rom)
+    o = pyrtl.Output(4, 'o_rom')
+    o <<= rom[a]
+    d.outputs.append(o)
+    d.ops = ['memwr', 'memrd'] * n_units + ['romrd']
+    # different contents per unit; the LAST unit is left out of the map in odd designs (starts from default)
+    memmap = {m: {x: (5 * j + 2 * x + 1) % 16 for x in range(4)} for j, m in enumerate(d.mems)
+              if not (k % 2 and j == n_units - 1)}
+    n = 8 if ctx.tier == 'quick' else 16
+    inputs = [{'a': rng.randrange(4), 'b': rng.randrange(4), 'din': rng.randrange(16), 'en': rng.randrange(2)}
+              for _ in range(n)]
+    return d, {}, memmap, inputs
 
 
 def build_directed_regs(ctx, k):
@@ -743,6 +836,10 @@ def build_directed(ctx, k):
         return build_directed_regs(ctx, k)
     if k in (8, 9):
         return build_directed_roms(ctx, k)
+    if k in (10, 11):
+        return build_directed_enables(ctx, k)
+    if k in (12, 13):
+        return build_directed_same_name(ctx, k)
     rng = ctx.sub_rng('directed', k)
     pyrtl.reset_working_block()
     d = gen_designs.Design(pyrtl.working_block())
@@ -829,7 +926,7 @@ def part_b(ctx, only=None):
     model_exprs, model_cases = [], []
     for i in (only if only is not None else [-(k + 1) for k in range(N_DIRECTED)] + list(range(n))):
         d, regmap, memmap, inputs = build_case(ctx, i)
-        ctx.count('design_kind', 'random' if i >= 0 else ('directed-shared-address', 'directed-reset-values', 'directed-partial-roms')[0 if -i - 1 < 6 else (1 if -i - 1 < 8 else 2)])
+        ctx.count('design_kind', 'random' if i >= 0 else DIRECTED_KIND[min((-i - 1) // 2, 6)])
         block = d.block
         outnames = [o.name for o in d.outputs]
         base_rep = {'part': 'b', 'seed': ctx.seed, 'design': i, 'tier': ctx.tier,
